@@ -1289,3 +1289,41 @@ def loop_must_call_census(ctx, crate, files):
                       where_of(b))
     # (no floor: loops come and go with refactorings — a loop that is gone puts no obligation)
     ctx.info("loops compared with the per-iteration must-call table: %d" % n)
+
+
+# ---------------------------------------------------------------------------- data slice of an operand inside one body
+def local_slice(b, op, max_defs=200):
+    """definitions (as returned by Body.defs(), each with its block) that feed operand `op` through locals of b: copies, binary /
+    unary operations, casts, references, aggregates and call results (the slice stops at a call: its arguments are not followed)"""
+    d = b.defs()
+    out, seen, work = [], set(), []
+    pl = mir.op_place(op)
+    if pl is not None:
+        work.append(pl["l"])
+    while work and len(out) < max_defs:
+        l = work.pop()
+        if l in seen:
+            continue
+        seen.add(l)
+        for df in d.get(l, []):
+            out.append(df)
+            if df["kind"] != "assign":
+                continue
+            rv = df["rv"]
+            ops = []
+            k = rv["k"]
+            if k in ("use", "cast", "repeat"):
+                ops = [rv["op"]]
+            elif k == "bin":
+                ops = [rv["a"], rv["b"]]
+            elif k == "un":
+                ops = [rv["a"]]
+            elif k == "agg":
+                ops = list(rv["ops"])
+            elif k in ("ref", "discr", "rawptr"):
+                work.append(rv["pl"]["l"])
+            for o in ops:
+                p2 = mir.op_place(o)
+                if p2 is not None:
+                    work.append(p2["l"])
+    return out
